@@ -36,8 +36,13 @@ func RunC14(tier string) int {
 				m := "markers/ok_" + t.Name
 				t.Checks = append(t.Checks, spec.Check{Marker: m})
 				markers = append(markers, m)
-				if r.Chance(1, 2) {
+				switch r.Intn(3) {
+				case 0:
 					t.Touch = m
+				case 1:
+					// a command that can break its own postcondition: it removes the checked
+					// marker while the control marker is present
+					t.Untouch, t.UntouchIf = m, "markers/break_"+t.Name
 				}
 			case 2: // expected_output check
 				m := "markers/eo_" + t.Name
@@ -106,6 +111,35 @@ func RunC14(tier string) int {
 					env.SetMarker(m, !on)
 					name = map[bool]string{true: "check-condition-destroyed", false: "check-condition-restored"}[on]
 					env.Logf("%s: %s", name, m)
+				case x < 5 && hasBreaker(env.Spec): // a command that exits 0 but destroys the condition its check asserts
+					var bs []*spec.Target
+					for _, t := range env.Spec.Targets {
+						if t.Untouch != "" {
+							bs = append(bs, t)
+						}
+					}
+					t := rng.Pick(r, bs)
+					on := env.markerOn(t.UntouchIf)
+					env.SetMarker(t.UntouchIf, !on)
+					name = map[bool]string{true: "breaker-removed", false: "breaker-set"}[on]
+					env.Logf("%s: %s", name, t.UntouchIf)
+					if !on {
+						// the condition holds when the build starts, and the target executes anyway:
+						// tainted (cached result exists) or changed (no result for the state)
+						env.SetMarker(t.Untouch, true)
+						if r.Chance(1, 2) {
+							if env.RunTaint([]string{t.Label()}).Exit != 0 {
+								run.Infra("grog taint failed")
+								return
+							}
+							env.Taint[t.Label()] = true
+							name += "+taint"
+						} else {
+							env.Apply(func() string { t.Salt = r.Word(4, 8); return "command-change" })
+							name += "+command-change"
+						}
+						run.Count("executions_that_break_their_own_postcondition", 1)
+					}
 				case x < 6: // toggle a failure cause
 					var cands []string
 					for _, t := range env.Spec.Targets {
@@ -191,6 +225,7 @@ func RunC14(tier string) int {
 		}
 		run.Sample(map[string]any{"case": i, "shape": s.Shape(), "history": env.Log})
 	})
+	_ = hasBreaker
 	// A dependency with a timeout that has to be re-run while its dependant loads dependency
 	// outputs (load_outputs=minimal, blobs lost) is still subject to its timeout.
 	Parallel(tierN(tier, 10, 80), func(i int) {
@@ -246,4 +281,13 @@ func RunC14(tier string) int {
 	})
 	run.Assume("the checked condition is an external marker file the harness owns; it is not a declared input, so only the output check can see it")
 	return run.Finish()
+}
+
+func hasBreaker(s *spec.Spec) bool {
+	for _, t := range s.Targets {
+		if t.Untouch != "" {
+			return true
+		}
+	}
+	return false
 }
